@@ -9,7 +9,9 @@ Record coupled (U : Z) (hs : bool) (s : st) (m : mon) : Prop := mkCoupled {
   cp_nodup : NoDup (map h_name (tbl s));
   cp_nreg : m_nreg m = nreg s;
   cp_kn : forall p, 0 <= p < U -> memz p (m_kn m) = memz p (know s);
-  cp_sc : hs = true -> m_sc m = scope_vec U (outD s) (inL s) }.
+  cp_sc : hs = true -> m_sc m = scope_vec U (outD s) (inL s);
+  cp_held : m_held m = held s;
+  cp_nslot : m_nslot m = nslot s }.
 
 Definition wf_op (U : Z) (o : op) : Prop :=
   match o with
@@ -46,18 +48,18 @@ Section GenericTrace.
     exists m', mon_step U hs (limL c) m o (snd (step ms_select ms_lazy U c s o)) = Some m' /\
                coupled U hs (fst (step ms_select ms_lazy U c s o)) m'.
   Proof.
-    intros U hs c s m o Hwf Hc Hop. destruct Hc as [Hl Hnd Hn Hk Hs].
-    destruct o as [name | name acc | name | k | opens | slot how | dir wt]; cbn [step mon_step fst snd].
+    intros U hs c s m o Hwf Hc Hop. destruct Hc as [Hl Hnd Hn Hk Hs Hh Hns].
+    destruct o as [name | name acc | name | k | opens | slot how | slot side q | dir wt]; cbn [step mon_step fst snd].
     - destruct (add_handler_live (tbl s) name [name] (nreg s) Hnd) as [E ND].
       eexists. split; [reflexivity|].
-      constructor; cbn; [rewrite Hl, Hn; symmetry; exact E | exact ND | lia | exact Hk | exact Hs].
+      constructor; cbn; [rewrite Hl, Hn; symmetry; exact E | exact ND | lia | exact Hk | exact Hs | exact Hh | exact Hns].
     - destruct (add_handler_live (tbl s) name acc (nreg s) Hnd) as [E ND].
       eexists. split; [reflexivity|].
-      constructor; cbn; [rewrite Hl, Hn; symmetry; exact E | exact ND | lia | exact Hk | exact Hs].
-    - eexists. split; [reflexivity|]. constructor; cbn; [| | exact Hn | exact Hk | exact Hs].
+      constructor; cbn; [rewrite Hl, Hn; symmetry; exact E | exact ND | lia | exact Hk | exact Hs | exact Hh | exact Hns].
+    - eexists. split; [reflexivity|]. constructor; cbn; [| | exact Hn | exact Hk | exact Hs | exact Hh | exact Hns].
       + unfold live_remove. rewrite Hl. symmetry. apply remove_handler_filter. exact Hnd.
       + rewrite (remove_handler_filter name (tbl s) Hnd). apply filter_names_nodup. exact Hnd.
-    - eexists. split; [reflexivity|]. constructor; cbn; [exact Hl | exact Hnd | exact Hn | reflexivity | exact Hs].
+    - eexists. split; [reflexivity|]. constructor; cbn; [exact Hl | exact Hnd | exact Hn | reflexivity | exact Hs | exact Hh | exact Hns].
     - destruct (run_batch ms_select ms_lazy c (tbl s) (know s)
                   (mkB (outD s) (inL s) [] (held s) (nslot s)) opens) as [b rs] eqn:E.
       cbn [fst snd mon_step].
@@ -77,16 +79,32 @@ Section GenericTrace.
         - destruct hs; [|reflexivity]. cbn [negb orb]. rewrite (Hs eq_refl).
           apply scope_ok_holds; intros q; apply Hcnt. }
       rewrite Hb. eexists. split; [reflexivity|].
-      constructor; cbn; [exact Hl | exact Hnd | exact Hn | | ].
+      pose proof (outcomes_held _ _ _ _ _ _ _ Ho) as [Hh1 Hh2]. cbn [b_held b_nslot] in Hh1, Hh2.
+      constructor; cbn; [exact Hl | exact Hnd | exact Hn | | | | ].
       + intros p Hp. apply canon_know_mem. exact Hp.
       + intros Hhs. rewrite Hhs. reflexivity.
+      + rewrite Hh, Hns. symmetry. exact Hh1.
+      + rewrite Hns. symmetry. exact Hh2.
     - destruct (find (fun x => fst x =? slot) (held s)) as [[sl p]|] eqn:E; cbn [fst snd mon_step].
       + eexists. split; [reflexivity|].
-        constructor; cbn; [exact Hl | exact Hnd | exact Hn | exact Hk | intros Hhs; rewrite Hhs; reflexivity].
+        constructor; cbn; [exact Hl | exact Hnd | exact Hn | exact Hk | intros Hhs; rewrite Hhs; reflexivity
+                          | rewrite Hh; reflexivity | exact Hns].
       + eexists. split; [reflexivity|].
-        constructor; cbn; [exact Hl | exact Hnd | exact Hn | exact Hk | intros Hhs; rewrite Hhs; reflexivity].
+        constructor; cbn; [exact Hl | exact Hnd | exact Hn | exact Hk | intros Hhs; rewrite Hhs; reflexivity | | exact Hns].
+        rewrite Hh. apply filter_all_true. intros x Hx. apply negb_true_iff.
+        destruct (fst x =? slot) eqn:Ex; [|reflexivity]. exfalso.
+        eapply find_none in E; eauto. cbn in E. congruence.
+    - (* relabel: with real resource managers the model answers "refused, labels unchanged" *)
+      rewrite Hh. destruct (find (fun x => fst x =? slot) (held s)) as [[sl p]|] eqn:E.
+      + destruct hs.
+        * destruct Hwf as [_ Hr]. rewrite (Hr eq_refl). cbn [negb orb]. rewrite !Z.eqb_refl. cbn [andb].
+          eexists. split; [reflexivity|]. constructor; assumption.
+        * cbn [negb orb]. destruct (c_rcmgr c); [|destruct (side =? 0)];
+            (eexists; split; [reflexivity|]; constructor; assumption).
+      + eexists. split; [reflexivity|]. constructor; assumption.
     - eexists. split; [reflexivity|].
-      constructor; cbn; [exact Hl | exact Hnd | exact Hn | reflexivity | intros Hhs; rewrite Hhs; reflexivity].
+      constructor; cbn; [exact Hl | exact Hnd | exact Hn | reflexivity | intros Hhs; rewrite Hhs; reflexivity
+                        | reflexivity | exact Hns].
   Qed.
 
   Theorem mon_accepts_trace : forall U hs c ops s m i,
